@@ -151,7 +151,8 @@ counters! {
     dom_steps, dom_mutations, dom_rejected_ops, dom_panics_expected, dom_clones, dom_takes,
     dom_pool_compares, dom_parsed_roots, dom_built_values, dom_cross_assign,
     // generic
-    heap_leak_reexec, oracle_compares, runs_nontrivial,
+    heap_leak_reexec, oracle_compares, runs_nontrivial, heap_reuse_runs, heap_blocks_reused, arena_handoffs,
+    dom_typed_handle_entries, post_cas_yields,
 }
 
 static COUNTERS: [AtomicU64; C::_COUNT as usize] = {
